@@ -294,8 +294,13 @@ def enc_sequence(mod, rt, v, out, ch=ref_ber.CANON):
     pres = {m.name: present(m) for m in rt.members}
     present = lambda m: pres[m.name]
     adds_present = [present(m) for m in adds]
+    # additions of a later version of the type, unknown to the decoder (X.691 19.9): must be skipped
+    unknown = []
+    if rt.ext and ch.pick("per-unknown-ext", 4) == 1:
+        for i in range(1 + ch.pick("per-unknown-ext-count", 3)):
+            unknown.append(bytes((0xA1 + 17 * i + j) & 0xff for j in range(1 + ch.pick("per-unknown-ext-len", 4))))
     if rt.ext:
-        out.put(1 if any(adds_present) else 0, 1)
+        out.put(1 if any(adds_present) or unknown else 0, 1)
     for m in root:
         if m.optional or m.has_default:
             out.put(1 if present(m) else 0, 1)
@@ -304,15 +309,20 @@ def enc_sequence(mod, rt, v, out, ch=ref_ber.CANON):
             if not present(m):
                 continue
         enc(mod, m.type, v[m.name], out, ch)
-    if rt.ext and any(adds_present):
-        put_normally_small_length(out, len(adds))
-        for p in adds_present:
+    if rt.ext and (any(adds_present) or unknown):
+        put_normally_small_length(out, len(adds) + len(unknown))
+        for p in adds_present + [True] * len(unknown):
             out.put(1 if p else 0, 1)
         for m, p in zip(adds, adds_present):
             if p:
                 inner = Bits()
                 enc(mod, m.type, v[m.name], inner, ch)
                 open_type(out, inner)
+        for b in unknown:
+            inner = Bits()
+            for octet in b:
+                inner.put(octet, 8)
+            open_type(out, inner)
 
 
 def choice_order(mod, rt, members):
